@@ -191,6 +191,8 @@ mod startpredicate;
 mod types;
 mod unicode;
 mod unicodetables;
+#[cfg(all(regress_verif, feature = "std"))]
+pub mod verif;
 
 #[cfg(feature = "backend-pikevm")]
 mod pikevm;
